@@ -484,7 +484,7 @@ fn check_cmd(id: &str, tier: &str, verif_seed: u64) -> i32 {
             match out {
                 Ok(o) if o.status.code() == Some(1) => {
                     report(&format!("VIOLATION property={id} replay={path}"));
-                    eprintln!("  signature {sig} shape [{shape}] ({} runs); {}", list.len(), j.owned.first().map(|m| m.detail.clone()).unwrap_or_default());
+                    eprintln!("  signature {sig} shape [{shape}] ({} runs); {}", list.len(), j.owned.iter().find(|m| format!("{}@{}", m.kind, m.site) == *sig).or(j.owned.first()).map(|m| m.detail.clone()).unwrap_or_default());
                     new_violations += 1;
                     replays.push(path);
                 }
